@@ -24,6 +24,12 @@ def run(pid, tier, rule, assumptions):
     ])
     rng = random.Random(vlib.seed())
     docs = wg.gen_docs(rng, 700 if quick else 60000) + wg.gen_bulk()
+    # C02 also on a build that stores floating-point values in single precision (ARDUINOJSON_USE_DOUBLE=0): the
+    # doubles of these documents are exactly representable as floats, so the text still has to denote them
+    fdocs, fbin = [], None
+    if pid == "C02":
+        fbin = vlib.build("writer_record-nodouble", "writer_record.cpp", defines=["ARDUINOJSON_USE_DOUBLE=0"], **flags)
+        fdocs = [d for d in wg.gen_docs(rng, 300 if quick else 12000, f64_as_float=True) if d.get("cls") != "mpraw"]
     parts = 12
     chunks = [docs[i::parts] for i in range(parts)]
     jobs = []
@@ -32,6 +38,12 @@ def run(pid, tier, rule, assumptions):
         wg.write_docs(dp, ch)
         b = bins[i % len(bins)]
         jobs.append((dp, os.path.join(wd, f"rec{i}.ndjson"), b))
+    if fbin:
+        fchunks = [fdocs[i::3] for i in range(3)]
+        for i, ch in enumerate(fchunks):
+            dp = os.path.join(wd, f"fdocs{i}.ndjson")
+            wg.write_docs(dp, ch)
+            jobs.append((dp, os.path.join(wd, f"frec{i}.ndjson"), fbin))
     res = vlib.run_parallel([[b, dp, out, str(vlib.seed())] for dp, out, b in jobs], timeout=900)
     good = []
     for (rc, txt), (dp, out, b) in zip(res, jobs):
